@@ -224,7 +224,8 @@ class PlainRun:
             if ix[0] == "a":
                 return self._new([lst[i] for i in ix[1]])
             if ix[0] == "m":
-                if len(ix[1]) != len(lst):
+                # numpy: an empty boolean index selects nothing on an axis of any size
+                if ix[1] and len(ix[1]) != len(lst):
                     raise IndexError("mask")
                 return self._new([x for x, b in zip(lst, ix[1]) if b])
             if ix[0] == "l":
@@ -901,13 +902,25 @@ class Gen:
         return ops, run, obs
 
 
+# the counter-example histories of DS.Props.C08 (witnessSelection, witnessExtendDefault, witnessNoCopy,
+# witnessFailedOp), replayed on the implementation on every run: (history, oracle key expected to fire)
+_B3 = [("mkstru", 0), ("addnew", 0, 1), ("addnew", 0, 2), ("addnew", 0, 3)]
+_T1 = [("mkstru", 0), ("mkstru", 0), ("addnew", 1, 12)]
+LEAN_WITNESS_KEYS = ["shared-selection-lattice", "extend-default-adopts-foreign-atom", "shared-nocopy-lattice",
+                     "shared-nocopy-lattice:failed-op"]
+LEAN_WITNESSES = [
+    _B3 + [("get", 0, ("s", (1, None, None))), ("setlat", 1, ("new",))],
+    _T1 + [("extend", 0, ("T", 1), "d")],
+    _T1 + [("append", 0, ("M", 1, 0), "n")],
+    _T1 + [("set", 0, 9, ("M", 1, 0), False)],
+]
+
+
 # directed histories: one per past finding / special argument form (run first on every run)
 def corpus():
     base = [("mkstru", 0), ("addnew", 0, 1), ("addnew", 0, 2), ("addnew", 0, 3)]
     two = base + [("mkstru", 1), ("addnew", 1, 11), ("addnew", 1, 12)]
-    return [
-        # the witness of `lattice_inv_unrestricted_false`
-        base + [("get", 0, ("s", (1, None, None))), ("setlat", 1, ("new",))],
+    return LEAN_WITNESSES + [
         # past findings (fixed in the tree): extend with itself, pickling
         base + [("extend", 0, ("S", 0), "d"), ("iadd", 0, ("S", 0)), ("extend", 0, ("GS", 0), "d"), ("extend", 0, ("S", 0), "n")],
         base + [("pickle", 0, p) for p in range(6)] + [("deepcopy", 0)],
@@ -1031,6 +1044,15 @@ def run(ck):
         impl_obs.append(obs)
         oracle_fail.append(r.failures)
     ncorpus = len(histories)
+    # the Lean counter-example theorems speak about the code only if the implementation shows them too
+    wit = []
+    for k, fails in zip(LEAN_WITNESS_KEYS, oracle_fail[:len(LEAN_WITNESSES)]):
+        wit.append({"key": k, "fails_on_implementation": any(f[1] == k for f in fails)})
+    ck.coverage["lean_counterexamples_replayed"] = wit
+    for w_ in wit:
+        if not w_["fails_on_implementation"]:
+            ck.notes.append("counter-example theorem for %s is no longer exhibited by the implementation "
+                            "(the model/implementation comparison decides whether the model is stale)" % w_["key"])
     for _ in range(nhist):
         ops, r, obs = g.history()
         histories.append(ops)
@@ -1110,7 +1132,12 @@ def run(ck):
         "file I/O (read/readStr/write) and placeInLattice are covered by C16/C14, not here",
         "copy(), copy.copy, Structure(s), PDFFitStructure(s) are one model operation; Structure/PDFFitStructure differ only in pdffit metadata",
         "numpy index arrays are modelled as lists of Python integers; float / multi-dimensional index arrays are not generated",
-        "refines_list is proved for histories whose `-`, `-=`, `remove` steps remove by identity exactly what removal by payload removes (SubAgree)",
+        "refines_list/errors_match are proved for histories whose `-`, `-=`, `remove` steps remove by identity exactly what removal by "
+        "payload removes (HistAgree, a Boolean hypothesis on the pre-state of those steps); unconditional for histories without them",
+        "lattice_inv needs the side condition Safe only at lattice assignments and non-copying insertions (safe_of_copying proves it for "
+        "every other operation); no_alias_partial does not cover assignment to an extended slice and pickling with protocol 0/1 "
+        "(no_alias_statement), both are exercised differentially",
+        "composition / column arrays (xyz, occupancy, U...) are not compared; the payload is a custom attribute copied by Atom.__copy__",
     ]
     if not ok and not ck.violations:
         ck.fail("lean-build", "Lean obligations of C08 no longer check: %r" % (info["failed_modules"],),
